@@ -459,9 +459,13 @@ def new_ltf_plan(**args):
         # The bmin constraint must always be respected
         if fbin < bmin:
             fres = fi / bmin
-            dftlen = int(fs/fres) # Recalculate L if bmin was enforced
-            fbin = bmin
+            dftlen = min(int(np.round(fs / fres)), N) # Recalculate L if bmin was enforced
             nseg = int(np.round((N - dftlen) / (xov * dftlen) + 1))
+            if nseg == 1:
+                dftlen = N
+            # Keep the DFT constraint r*L = fs for the recalculated length
+            fres = fs / dftlen
+            fbin = fi / fres
 
 
         # --- C. Store results and update state for the next iteration ---
